@@ -55,8 +55,8 @@ VERSIONED = {
 
 
 def _covered(atom: str, key_atoms: Set[str]) -> bool:
-    if atom in key_atoms:
-        return True
+    if atom in key_atoms or atom + ".*" in key_atoms:
+        return True  # `x.*`: the key walks every element of x
     if atom in VERSIONED and any(k.startswith(atom + ".") for k in key_atoms):
         return True  # the key reads the object's version / instance id
     parts = atom.split(".")
@@ -127,7 +127,7 @@ def rule_key_turn(ctx, t2_key_atoms: Set[str]) -> None:
     need = set()
     for a in t2_key_atoms:
         if a.startswith(("state:mem_backend", "cfg:t2.lancedb", "cfg:t2.backend", "cfg:t2.embed_root")) or a == "state:active_graphs" or a == "state:store":
-            continue  # the T1-label part of q_text is represented by T1's changed ids; backend tags are bookkeeping
+            continue  # backend tags are bookkeeping; the graph store is checked by version (rule_store_versioned)
         need.add(a)
     # the stage key reads these through ctx/cfg helpers; spell out the must-haves the statement names
     need |= {"ctx:agent_id", "ctx:now", "state:version_etag", "state:mem_index"}
@@ -141,6 +141,128 @@ def rule_key_turn(ctx, t2_key_atoms: Set[str]) -> None:
     ctx.check("t1" in sl.names(), "C05.KEY", "TURN/t1-result", fn.loc(c), "the key depends on T1's result (changed labels are part of the query text)",
               "the turn-level key ignores T1's result although the query text includes the labels T1 changed")
     ctx.check("input_text" in sl.names() or "input_text" in sl.params, "C05.KEY", "TURN/input-text", fn.loc(c), "the key depends on the input text", "the key ignores the input text")
+
+
+def _reaches_call(ctx, fn: Func, calls, tails: Set[str], depth: int = 2, seen=None) -> Optional[str]:
+    """one of `calls` is (or, through resolved callees up to `depth`, contains) a call whose tail is in `tails`"""
+    seen = seen if seen is not None else set()
+    for c in calls:
+        if call_tail(c) in tails:
+            return src(c)[:50]
+        if depth <= 0:
+            continue
+        r = ctx.prog.callee(fn, c)
+        if r and r[0] == "func" and r[1] in ctx.prog.funcs and r[1] not in seen:
+            seen.add(r[1])
+            g = ctx.prog.funcs[r[1]]
+            hit = _reaches_call(ctx, g, [x for x in walk_no_defs(g.node) if isinstance(x, ast.Call)], tails, depth - 1, seen)
+            if hit:
+                return f"{g.name}: {hit}"
+    return None
+
+
+def rule_store_versioned(ctx) -> None:
+    """T2 reads the *content* of the graph store (labels of the nodes T1 touched for the query text, all labels for the
+    residual nudges).  The store is edited outside apply as well (upsert_nodes / upsert_edges do not move the state version),
+    so a key that wraps a T2 computation must carry the store's own version - `version_etag(gid)` of the active graphs - and
+    not merely something derived from the store by another route (T1's changed ids, the labels inside the query text): an
+    access-path match `state:store in key` is not enough, which is how this was missed at first."""
+    t2 = ctx.func(T2)
+    readers = _reaches_call(ctx, t2, [x for x in walk_no_defs(t2.node) if isinstance(x, ast.Call)], {"get_graph"}, depth=2)
+    if not readers:
+        raise AnalysisError("anchor-vanished: t2_semantic no longer reads graph-store content (get_graph) - revisit C05.KEY store-versioned")
+    sites = []
+    cfg2 = ctx.cfg(t2)
+    for n in cfg2.nodes:
+        for c in node_calls(n):
+            if call_tail(c) == "get" and src(c.func.value) == "cache" and c.args:
+                sites.append((t2, n, c.args[0], "T2"))
+    rt = ctx.func(RUN_TURN)
+    cfgr = ctx.cfg(rt)
+    for n in cfgr.nodes:
+        for c in node_calls(n):
+            if call_tail(c) == "get" and src(c.func.value) == "cm" and len(c.args) == 2:
+                sites.append((rt, n, c.args[1], "TURN"))
+    ctx.floor("C05.KEY", "keys wrapping a T2 computation", len(sites), 2)
+    for fn, n, kexpr, tag in sites:
+        sl = ctx.rd(fn).slice([kexpr], n)
+        hit = _reaches_call(ctx, fn, sl.calls(), {"version_etag"}, depth=2)
+        ctx.check(hit is not None, "C05.KEY", f"{tag}/graph-store-by-version", fn.loc(kexpr),
+                  f"the key carries the graph store's version ({hit}); T2 reads store content via {readers}",
+                  f"T2 reads graph-store content ({readers}) but this key never reads the store's version (version_etag of the active graphs): after a node is relabelled outside apply, "
+                  "a hit returns the query text / residual nudges computed from the old labels")
+
+
+QUALITY_TRACE_ONLY = {
+    "shadow": "selects the shadow trace; the returned items are untouched (C02 / C20 check the trace sites)",
+    "trace_dir": "where the shadow trace is written",
+    "redact": "redaction of the shadow trace",
+}
+
+
+def rule_quality_digest(ctx) -> None:
+    """the stage key represents t2.quality by a digest over a fixed list of sub-trees; every first-level key of t2.quality that
+    the ranking code (fusion, BM25, MMR, apply_quality) reads must be on that list, or a config change between turns is served
+    the ranking computed under the old setting.  Writer/reader table agreement: the digest's list vs the readers' keys."""
+    dg = ctx.func("clematis.engine.stages.t2.helpers:quality_digest")
+    digest: Set[str] = set()
+    whole = False
+    for x in walk_no_defs(dg.node):
+        if isinstance(x, (ast.List, ast.Tuple)) and x.elts and all(const_str(e) is not None for e in x.elts):
+            digest |= {const_str(e) for e in x.elts}
+        if isinstance(x, ast.Call) and call_tail(x) == "dumps" and x.args and isinstance(x.args[0], ast.Name) and x.args[0].id in dg.params:
+            whole = True  # the whole sub-config is hashed
+    if not digest and not whole:
+        raise AnalysisError("anchor-vanished: key list of quality_digest")
+    reads: Dict[str, str] = {}
+    for mn in ("clematis.engine.stages.t2.quality_ops", "clematis.engine.stages.t2.quality", "clematis.engine.stages.t2.quality_mmr"):
+        if mn not in ctx.prog.modules:
+            continue
+        m = ctx.prog.module(mn)
+        qparams: Dict[str, Set[str]] = {}
+        for _ in range(2):
+            for fn in m.funcs.values():
+                names = set(qparams.get(fn.qual, set()))
+                for x in walk_no_defs(fn.node):
+                    if isinstance(x, ast.Assign) and len(x.targets) == 1 and isinstance(x.targets[0], ast.Name):
+                        v = x.value
+                        is_q = any(isinstance(c, ast.Call) and call_tail(c) == "get" and c.args and const_str(c.args[0]) == "quality" for c in ast.walk(v)) or \
+                            any(isinstance(c, ast.Call) and call_tail(c) in ("cfg_get", "_cfg_get") and len(c.args) >= 2 and isinstance(c.args[1], ast.List)
+                                and [const_str(e) for e in c.args[1].elts] == ["t2", "quality"] for c in ast.walk(v))
+                        if is_q:
+                            names.add(x.targets[0].id)
+                for x in walk_no_defs(fn.node):
+                    if isinstance(x, ast.Call):
+                        # reads
+                        if isinstance(x.func, ast.Attribute) and x.func.attr == "get" and isinstance(x.func.value, ast.Name) and x.func.value.id in names and x.args and const_str(x.args[0]):
+                            reads.setdefault(const_str(x.args[0]), fn.loc(x))
+                        if call_tail(x) in ("cfg_get", "_cfg_get") and len(x.args) >= 2 and isinstance(x.args[1], ast.List):
+                            parts = [const_str(e) for e in x.args[1].elts]
+                            if len(parts) >= 3 and parts[:2] == ["t2", "quality"] and parts[2]:
+                                reads.setdefault(parts[2], fn.loc(x))
+                        # the sub-config handed on to another function of the module
+                        r = ctx.prog.callee(fn, x)
+                        if r and r[0] == "func" and r[1] in ctx.prog.funcs:
+                            g = ctx.prog.funcs[r[1]]
+                            ps = [p for p in g.params if p not in ("self", "cls")]
+                            for i, a in enumerate(x.args):
+                                if isinstance(a, ast.Name) and a.id in names and i < len(ps):
+                                    qparams.setdefault(g.qual, set()).add(ps[i])
+                            for kw in x.keywords:
+                                if isinstance(kw.value, ast.Name) and kw.value.id in names and kw.arg in ps:
+                                    qparams.setdefault(g.qual, set()).add(kw.arg)
+                    if isinstance(x, ast.Subscript) and isinstance(x.value, ast.Name) and x.value.id in names and const_str(x.slice):
+                        reads.setdefault(const_str(x.slice), fn.loc(x))
+    ctx.floor("C05.KEY", "first-level keys of t2.quality read by the ranking code", len(reads), 5)
+    for k in sorted(reads):
+        key = f"T2/quality-digest:{k}"
+        if whole or k in digest:
+            ctx.holds("C05.KEY", key, reads[k], f"t2.quality.{k} is part of the digest in the stage key")
+        elif k in QUALITY_TRACE_ONLY:
+            ctx.holds("C05.KEY", key, reads[k], f"exempt: {QUALITY_TRACE_ONLY[k]}", nontrivial=False)
+        else:
+            ctx.violation("C05.KEY", key, reads[k], f"the ranking code reads t2.quality.{k} but quality_digest - which stands for the quality configuration in the T2 stage key - hashes only "
+                          f"{sorted(digest)}: after t2.quality.{k} changes between turns a hit returns the ranking computed under the old setting")
 
 
 def rule_key_t1(ctx) -> None:
@@ -600,6 +722,8 @@ def run(ctx) -> None:
     rule_entry_complete(ctx)
     ka = rule_key_t2(ctx)
     rule_key_turn(ctx, ka)
+    rule_store_versioned(ctx)
+    rule_quality_digest(ctx)
     rule_key_t1(ctx)
     rule_key_t1_roots(ctx)
     rule_ver(ctx)
